@@ -26,7 +26,7 @@ ASSUMPTIONS = [
 COMPONENTS = {'real': ['yldprolog.engine fact store, match_dynamic, retract/retractall/asserta/assertz builtins, clear', 'compiled idiom clauses (real compiler output)'],
               'stub': ['scheduler of the suspended enumerations and of the mutations between their steps'],
               'oracle': ['logical-update-view model: enumerations walk the records present at their start; retract skips records no longer stored; store = all asserts and removals applied']}
-REQUIRED_PROBES = ('guarded_scan_started', 'step_in_large_enumeration', 'nonground_fact_answered', 'step_after_mutation', 'mutation_under_suspended_enum', 'mutation_adjacent_to_cursor', 'retract_enum_skipped_removed',
+REQUIRED_PROBES = ('fault_assert_overflow', 'fault_retractall_overflow', 'deep_fact_stored', 'guarded_scan_started', 'step_in_large_enumeration', 'nonground_fact_answered', 'step_after_mutation', 'mutation_under_suspended_enum', 'mutation_adjacent_to_cursor', 'retract_enum_skipped_removed',
                    'query_enum_visited_removed', 'two_enums_same_predicate', 'idiom_drain', 'idiom_upd', 'clear_under_suspended_enum')
 
 KEYS = [('p', 1), ('c', 1), ('p', 2)]
@@ -164,6 +164,15 @@ class ModelSim:
             self.touch(key)
 
 
+def deep_row(key):
+    from ..machine import deep_model_term
+    return [deep_model_term('list', 100)] + [('a', 'a')] * (key[1] - 1)
+
+
+def is_deep(row):
+    return bool(row) and TM.size(row[0]) > 60
+
+
 def gen_pat(rng, ar):
     return [rng.choice(VALS) if rng.random() < 0.35 else ['v', rng.randrange(2)] for _ in range(ar)]
 
@@ -176,6 +185,9 @@ def gen(seed, tier):
     nvals = rng.choice((2, 3, 4))
     p_idiom = rng.choice((0.0, 0.03, 0.08))
     nonground = rng.random() < 0.3
+    depth_faults = rng.random() < 0.15       # runs with deep facts and operations that overflow the stack (no idioms: their line budget is for small terms)
+    if depth_faults:
+        p_idiom = 0.0
     if nonground:
         # facts of the arity-1 predicates may contain (fact-local) variables; each enumeration has its own
         # pattern variables, so answers of simultaneously suspended enumerations must be independent
@@ -265,14 +277,27 @@ def gen(seed, tier):
             name = rng.choice(('drain', 'upd', 'drain2', 'addwhile'))
             ops.append(['idiom', name])
             m.idiom(name)
-        elif k < 0.985:
+        elif k < (0.88 if depth_faults else 0.985):
             row = row_for(ki)
             ops.append(['assert', rng.random() < 0.5, ki, row])
             m.add(key, [TM.T(t) for t in row], ops[-1][1])
+        elif k < 0.985:
+            # depth faults: an operation is attempted with 60 frames of stack left and overflows (handled by the caller)
+            if rng.random() < 0.4:
+                ops.append(['deepfact', ki])
+                m.add(key, deep_row(key), False)
+            else:
+                what = rng.choice(('assert', 'assert', 'retractall', 'query'))
+                pat = gen_pat(rng, key[1])
+                ops.append(['faultop', what, ki, pat])
+                if what == 'retractall' and not any(is_deep(r) for r in m.store.rows(key)):
+                    m.retractall(key, [TM.T(t) for t in pat])
         else:
             ops.append(['clear'])
             m.clear()
-    return {'ops': ops}
+    # the read-back after an op is itself an enumeration of every predicate; in a third of the runs it is done only
+    # now and then (and at the end), so that nothing "heals" the engine between two operations
+    return {'ops': ops, 'readback_every': rng.choice((1, 1, 4)) if not depth_faults else rng.choice((1, 4, 1000))}
 
 
 def show_goal(ki, pat):
@@ -285,6 +310,10 @@ def show_op(op):
         return '%s %s' % ('asserta' if op[1] else 'assertz', show_goal(op[2], op[3]))
     if op[0] == 'start':
         return 'start-%s %s' % ({'q': 'query', 'r': 'retract', 'g': 'guarded-scan (p(X), c(a))'}[op[1]], show_goal(op[2], op[3]))
+    if op[0] == 'deepfact':
+        return 'assertz %s(<100-element list>%s)' % (KEYS[op[1]][0], ',a' * (KEYS[op[1]][1] - 1))
+    if op[0] == 'faultop':
+        return 'FAULT %s %s with 60 frames of stack left (handled)' % (op[1], ('%s(<100-element list>...)' % KEYS[op[2]][0]) if op[1] == 'assert' else show_goal(op[2], op[3]))
     if op[0] == 'bulk':
         return 'assertz %d facts on %s/%d' % (op[2], KEYS[op[1]][0], KEYS[op[1]][1])
     if op[0] in ('retract1', 'retractall'):
@@ -359,6 +388,7 @@ def execute(plan):
             live.remove(entry)
         return True
 
+    nops = 0
     for op in plan['ops']:
         kind = op[0]
         try:
@@ -418,6 +448,52 @@ def execute(plan):
                         break
                 if not ok_all:
                     break
+            elif kind == 'deepfact':
+                key = KEYS[op[1]]
+                log.count('cases')
+                row = deep_row(key)
+                yp.assert_fact(yp.atom(key[0]), [TM.build(yp, t, {}) for t in row])
+                m.add(key, row, False)
+                log.count('deep_fact_stored')
+                log.ev('deepfact', op[1])
+            elif kind == 'faultop':
+                from ..machine import LowRecursionLimit
+                _, what, ki, pat = op
+                key = KEYS[ki]
+                pat = [TM.T(t) for t in pat[:key[1]]]
+                log.count('cases')
+                under = [x for x in live if x['e']['key'] == key]
+                if under:
+                    log.count('fault_under_suspended_enum')
+                raised = False
+                if what == 'assert':
+                    eargs = [TM.build(yp, t, {}) for t in deep_row(key)]
+                    with LowRecursionLimit(60):
+                        try:
+                            yp.assert_fact(yp.atom(key[0]), eargs)
+                        except RecursionError:
+                            raised = True
+                    if not raised:
+                        m.add(key, deep_row(key), False)
+                else:
+                    vmap = {}
+                    pargs = [TM.build(yp, t, vmap) for t in pat]
+                    with LowRecursionLimit(60):
+                        try:
+                            g_ = yp.query('retractall', [yp.functor(key[0], pargs)]) if what == 'retractall' else yp.query(key[0], pargs)
+                            n_ = 0
+                            for _ in g_:
+                                n_ += 1
+                                if n_ > 300:
+                                    break
+                        except RecursionError:
+                            raised = True
+                    g_ = None
+                    if what == 'retractall' and not raised:
+                        m.retractall(key, pat)
+                log.count('fault_%s_%s' % (what, 'overflow' if raised else 'completed'))
+                log.ev('faultop', what, ki, raised)
+                log.key(('faultop', what, raised, len(under), tuple(TM.size(r[0]) > 60 for r in m.store.rows(key))))
             elif kind == 'bulk':
                 _, ki, n, nv_ = op
                 key = KEYS[ki]
@@ -494,6 +570,10 @@ def execute(plan):
         except Exception as e:
             log.violation('raises', {'op': show_op(op), 'exception': type(e).__name__})
             break
+        nops += 1
+        if nops % plan.get('readback_every', 1) and nops != len(plan['ops']):
+            log.count('readback_skipped')
+            continue
         try:
             diff = readback()
         except Exception as e:
@@ -505,6 +585,15 @@ def execute(plan):
             break
     for entry in live:
         entry['task'].close()
+    if not log.violations and plan.get('readback_every', 1) > 1:
+        try:
+            diff = readback()
+        except Exception as e:
+            diff = None
+            log.violation('raises', {'op': 'final read-back', 'exception': type(e).__name__})
+        if diff:
+            diff['after'] = 'the whole history (final read-back)'
+            log.violation('store-differs', diff)
     return log.result()
 
 
